@@ -93,11 +93,41 @@ def run_seeded(sdir):
         shutil.rmtree(d, ignore_errors=True)
 
 
+def run_refactor(rdir):
+    """behaviour-preserving patch: every check must stay silent (exit 0)"""
+    patch = os.path.join(rdir, 'patch.diff')
+    if not os.path.exists(patch):
+        return None
+    d = _scratch()
+    try:
+        repo = os.path.join(d, 'repo')
+        _copy_repo(repo)
+        p = subprocess.run(['patch', '-p1', '-s', '-d', repo, '-i', patch], capture_output=True,
+                           text=True)
+        if p.returncode != 0:
+            return dict(name=os.path.basename(rdir), result='skipped',
+                        detail='patch does not apply: ' + (p.stdout + p.stderr)[:300])
+        rules = os.path.join(VERIF, 'sa', 'rules')
+        props = sorted(f[:-3].upper() for f in os.listdir(rules)
+                       if f.startswith('c') and f[1:-3].isdigit())
+        fired = {}
+        for pid in props:
+            rc, outp = run_check(pid, repo, os.path.join(d, 'out'))
+            if rc != 0:
+                fired[pid] = [rc] + [l[:300] for l in outp.splitlines()
+                                     if l.startswith('tenpy/') or 'ANALYSIS-ERROR' in l][:3]
+        return dict(name=os.path.basename(rdir), result='FALSE-ALARM' if fired else 'silent',
+                    by=fired)
+    finally:
+        shutil.rmtree(d, ignore_errors=True)
+
+
 def main(argv):
     from .mutants import MUTANTS
     jobs = 16
     ids = []
     seeded = False
+    refactors = False
     i = 0
     while i < len(argv):
         if argv[i] == '--jobs':
@@ -105,6 +135,9 @@ def main(argv):
             i += 2
         elif argv[i] == '--seeded':
             seeded = True
+            i += 1
+        elif argv[i] == '--refactors':
+            refactors = True
             i += 1
         else:
             ids.append(argv[i].upper())
@@ -119,6 +152,11 @@ def main(argv):
             dirs = sorted(os.path.join(sd, x) for x in os.listdir(sd))
             dirs = [x for x in dirs if os.path.isdir(x)]
             sres = [r for r in ex.map(run_seeded, dirs) if r]
+        rres = []
+        if refactors:
+            rd = os.path.join(VERIF, 'refactors')
+            dirs = sorted(os.path.join(rd, x) for x in os.listdir(rd))
+            rres = [r for r in ex.map(run_refactor, [x for x in dirs if os.path.isdir(x)]) if r]
     for r in results:
         tag = r['result']
         print('%-11s %s %-28s %s' % (tag, r['property'], r.get('rule') or '-', r['name']))
@@ -129,6 +167,14 @@ def main(argv):
             print('    ' + r.get('detail', ''))
     for r in sres:
         print('seeded %-8s %-40s %s' % (r['result'], r['name'], r.get('by') or r.get('detail')))
+    for r in rres:
+        if r['result'] != 'silent':
+            print('refactor %-12s %-24s %s' % (r['result'], r['name'], r.get('by') or r.get('detail')))
+            if r['result'] == 'FALSE-ALARM':
+                bad += 1
+    if refactors:
+        print('refactors: %d/%d behaviour-preserving patches left every check silent' %
+              (sum(1 for r in rres if r['result'] == 'silent'), len(rres)))
     n_ok = sum(1 for r in results if r['result'] == 'ok')
     print('selftest: %d/%d mutants behaved as expected, %d skipped; seeded caught %d/%d' %
           (n_ok, len(results), sum(1 for r in results if r['result'] == 'skipped'),
@@ -137,7 +183,8 @@ def main(argv):
     try:
         with open(out, 'w') as f:
             json.dump({'mutants': [{k: v for k, v in r.items() if k not in ('old', 'new')}
-                                   for r in results], 'seeded': sres}, f, indent=1)
+                                   for r in results], 'seeded': sres, 'refactors': rres},
+                      f, indent=1)
     except OSError:
         pass
     return 1 if bad else 0
